@@ -23,6 +23,17 @@ def digest_outputs(stage, outs, exc):
             js = json.loads(pathlib.Path(
                 cfg['extended_result_path']).read_text())
             core = mapworld.strip_volatile(js)
+            # level records in which the winner and the first runner-up
+            # hold the same number of votes (a tie had to be broken)
+            tied = 0
+            for rec in js.get('results', []):
+                for lv, lr in rec.items():
+                    if isinstance(lr, dict) and \
+                            lr.get('runner_up_probability') and \
+                            lr['runner_up_probability'][0] == \
+                            lr.get('bootstrapping_probability'):
+                        tied += 1
+            d['tied_vote_records'] = tied
             d['json'] = hashlib.sha256(
                 json.dumps(core, sort_keys=True).encode()).hexdigest()
             d['csv'] = hashlib.sha256(pathlib.Path(
